@@ -212,6 +212,12 @@ def r06d(ctx):
         hc = ac.calls(CORE)
         if clr and hc and all(ac.cfg.must_pass(x, via_blocks=clr) for x in hc) and not c05_loop(ac, clr[0]):
             wr = [c for c in ac.calls() if sg(ac.term(c).get('fn', '')).endswith('Write::write_fmt')]
+            # a write inside a nested closure (`children.iter().for_each(|c| writeln!(buf, ..))`) happens where that closure
+            # is handed to its consumer
+            for cc in F.children(ch):
+                acc_ = an(cc)
+                if any(sg(acc_.term(c).get('fn', '')).endswith('Write::write_fmt') for c in acc_.calls()):
+                    wr += [c for c in ac.calls() if any(flow.mentions(ac.arg(c, i_), lambda z: z[0] == 'agg' and z[1] == 'closure' and z[2] == cc['qpath']) for i_ in range(len(ac.term(c)['args'])))]
             okc = all(ac.cfg.must_pass(w, via_blocks=clr) for w in wr) and bool(wr)
     ctx.check(okc, 'R06d', h['qpath'], 'scratch cleared', '-', 'the thread-local buffer is cleared before it is filled and hashed (no bytes of an earlier call survive)',
               'the thread-local buffer of hash_node_sequence is not cleared before use: the hash depends on earlier calls')
